@@ -16,6 +16,11 @@
 (*  collector        environment: per request ack | reject | stall |       *)
 (*                   drop before reading | drop after reading, or refuse   *)
 (*                   the first connections; at most MaxFaults non-acks.    *)
+(*                   A reply has phases - head, body, trailers (gRPC) - and *)
+(*                   a stall can hit before each: "stall" (no head yet),   *)
+(*                   "stallbody" (head sent, body missing or cut short),   *)
+(*                   "stalltrail" (head and message sent, no grpc-status   *)
+(*                   trailer).  RespPhase(d) is how far the reply got.     *)
 (*                                                                         *)
 (* DoublePop = TRUE is the send loop as found in the repository (defect    *)
 (* F7: `requests.pop()` on success and again after the match).             *)
@@ -58,6 +63,12 @@ vars == <<size, limit, flushAt, hpc, nEmitted, queue, qSize, qWatch, batch, bWat
 view == <<size, limit, flushAt, hpc, nEmitted, queue, qSize, qWatch, batch, bWatch, inBatch, wpc,
           retries, conn, nConn, faults, acked, gaveUp, flushRet, covered, lastFail, broken,
           resendOK, freshOK, canon>>
+
+\* How far the reply to a failed request got before the failure: "none" - no response head
+\* (stall before the head, connection dropped); "head" - the response head arrived (a status
+\* reply, or a reply that stalls in a later phase: the request timeout still covers reading
+\* the body and the trailers).  HttpConnection puts its sender back as soon as there is a head.
+RespPhase(d) == IF d \in {"reject", "stallbody", "stalltrail"} THEN "head" ELSE "none"
 
 Last(s) == s[Len(s)]
 Front(s) == SubSeq(s, 1, Len(s) - 1)
@@ -185,10 +196,11 @@ WSend(d) ==
                /\ UNCHANGED <<faults, retries, gaveUp>>
           ELSE /\ faults' = faults + 1
                /\ acked' = acked
-               \* a status reply arrives as a response head: the sender is put back; a stall
-               \* (timeout) or a dropped connection leaves it poisoned
-               /\ conn' = IF d = "reject" THEN c ELSE 0
-               /\ broken' = IF d = "reject" THEN 0 ELSE c
+               \* once a response head arrived the sender is put back (also when the reply
+               \* then stalls and the request times out); a stall before the head or a dropped
+               \* connection leaves it poisoned
+               /\ conn' = IF RespPhase(d) = "head" THEN c ELSE 0
+               /\ broken' = IF RespPhase(d) = "head" THEN 0 ELSE c
                /\ IF retries < MaxRetry
                   THEN /\ retries' = retries + 1
                        /\ wpc' = "backoff"
